@@ -8,6 +8,9 @@
 #ifndef PLEN
 #define PLEN 9
 #endif
+#ifndef PMAX
+#define PMAX 0x7fffffff      /* longest path the property speaks about (PATH_MAX; BUFN - 1 in the scaled configuration) */
+#endif
 static u8 P[PLEN + 1]; static int g_fail; static u64 g_bufsiz_seen; static int g_calls;
 i64 ext_readlink(u8* path, u8* buf, u64 bufsiz) {
   (void)path; g_calls++; g_bufsiz_seen = bufsiz;
@@ -30,6 +33,9 @@ static void mkpath(const u8* sym) {
 #else
   (void)sym;
   for (int i = 0; i < PLEN; i++) P[i] = (i % 7 == 0) ? '/' : (u8)(i % 11 == 3 ? 0xC3 : i % 5 == 2 ? ' ' : 'a' + i % 26);   /* absolute path, components with spaces and non-ASCII bytes */
+#ifdef TAILSYM
+  for (int i = 0; i < TAILSYM; i++) if (PLEN - 1 - i > 0) P[PLEN - 1 - i] = sym[i];   /* the last bytes (file name, last separators) are symbolic */
+#endif
 #endif
   P[PLEN] = 0;
 }
@@ -41,10 +47,16 @@ void h_exe(void) {
 #ifdef KF_EXCLUDE_KF_C20_1
   VASSUME(PLEN < 1024 || fail);
 #endif
+#if defined(TAILSYM) && !defined(SYMBOLIC_CONTENT)
+  for (int i = 0; i < TAILSYM; i++) VASSUME(sym[i] != 0);
+#endif
   mkpath(sym); g_fail = fail; g_calls = 0; { IN_ARR(u8, aux, 8); for (int i = 0; i < 8; i++) AUXV[i] = aux[i]; }
   u8* out = HALLOC(PLEN + 8);
   i64 n = w_exe(out, PLEN + 8);
-  if (!fail) {   /* what happens when the operating system cannot name the binary is not part of the property */
+#ifndef PMAX
+#define PMAX 0x7fffffff      /* longest path the property speaks about (PATH_MAX; BUFN - 1 in the scaled configuration) */
+#endif
+  if (!fail && PLEN <= PMAX) {   /* what happens when the operating system cannot name the binary is not part of the property; beyond PATH_MAX only memory safety is decided */
     VASSERT(n == PLEN, "executable_path() has the length of the real path");
     for (int i = 0; i < PLEN; i++) VASSERT(out[i] == P[i], "executable_path() returns exactly the real path");
   }
@@ -57,6 +69,9 @@ void h_prefix(void) {
   for (int i = 0; i < PLEN; i++) VASSUME(sym[i] != 0);
   VASSUME(PLEN == 0 || sym[0] == '/');          /* an absolute path */
 #endif
+#if defined(TAILSYM) && !defined(SYMBOLIC_CONTENT)
+  for (int i = 0; i < TAILSYM; i++) VASSUME(sym[i] != 0);
+#endif
   mkpath(sym); g_fail = 0; g_calls = 0;
   u8* out = HALLOC(PLEN + 8);
   i64 n = w_prefix(out, PLEN + 8);
@@ -65,9 +80,11 @@ void h_prefix(void) {
   i64 blen = i < 0 ? PLEN : i;
   i64 j = -1; for (int k = 0; k < PLEN; k++) if (k < blen && P[k] == '/') j = k;
   i64 plen = j < 0 ? blen : j;
+  if (PLEN <= PMAX) {
   VASSERT(n == plen + 1, "prefix_path() is the grandparent directory plus a trailing separator: length");
   for (int k = 0; k < PLEN; k++) if (k < plen) VASSERT(out[k] == P[k], "prefix_path() is a prefix of the real path");
   VASSERT(out[plen] == '/', "prefix_path() ends with the separator");
+  }
   WITNESS("deep_path", j > 0); WITNESS("binary_in_root", i == 0);
   HARNESS_END();
 }
